@@ -347,9 +347,9 @@ theorem pushCountElems_bl : ∀ (xs : SVals), noRaws xs = true → CountBl ext x
       (pushCountElems_bl rest hraw'.2 el' (c + 1) cpath cdt cn cmd hg' (ha.push h') (by omega))
 theorem pushTupleElems_bl : ∀ (xs : SVals), noRaws xs = true → TupleBl ext xs
   | .nil, _ => by
-    intro k S path sfs s j hm hn hs _ _ hk
+    intro k S path sfs s j hm hn hs hcap _ hk
     rw [pushTupleElems]
-    exact hk s hm (by simpa [SVals.length] using hs)
+    exact hk s hm (by simpa [SVals.length] using hs) (by simp only [vsizes] at hcap; omega)
   | .cons x rest, hraw => by
     intro k S path sfs s j hm hn hs hcap hin hk
     have hraw' : noRaw x = true ∧ noRaws rest = true := by simpa [noRaws] using hraw
@@ -357,9 +357,9 @@ theorem pushTupleElems_bl : ∀ (xs : SVals), noRaws xs = true → TupleBl ext x
     have hlen : s.fields.length = sfs.toList.length := by
       rw [← BL.names_length, hm.names, List.length_map]
     have hk' : ∀ s', MidS path sfs s' → SeenIs s' ((sfs.toList.map Field.name).take (j + 1 + rest.length)) →
-        Blo S path (k s') := by
-      intro s' hm' hs'
-      refine hk s' hm' ?_
+        1 ≤ roomL s'.fields → Blo S path (k s') := by
+      intro s' hm' hs' hr'
+      refine hk s' hm' ?_ hr'
       have : j + (SVals.cons x rest).length = j + 1 + rest.length := by simp only [SVals.length]; omega
       rw [this]; exact hs'
     rw [pushTupleElems]
@@ -405,7 +405,7 @@ theorem pushTupleElems_bl : ∀ (xs : SVals), noRaws xs = true → TupleBl ext x
         obtain ⟨hgc', hroom⟩ := push_step hgc hraw'.1 (by omega) hpc
         have hroomL : roomL s.fields ≤ roomL (s.fields.set j c') + vsize ext x := roomL_set _ _ _ _ _ _ hget hroom
         refine pushTupleElems_bl rest hraw'.2 k S path sfs _ (j + 1) (hm.step hget hfj hgc' (hac.push hpc))
-          (.inl rfl) ?_ (show vsizes ext rest ≤ roomL (s.fields.set j c') by omega) ?_ hk'
+          (.inl rfl) ?_ (show vsizes ext rest + 1 ≤ roomL (s.fields.set j c') by omega) ?_ hk'
         · rw [htake]; exact SeenIs.step hm hs hname
         · intro q hq; apply hin; rw [hdrop]
           obtain ⟨fname, fdt, fn, fmd⟩ := f
@@ -425,9 +425,9 @@ theorem pushTupleElems_bl : ∀ (xs : SVals), noRaws xs = true → TupleBl ext x
         simp [blameNth] at hq
 theorem pushFields_bl : ∀ (fields : SFields), noRawf fields = true → FieldsBl ext fields
   | .nil, _ => by
-    intro k S path sfs s done hm hs _ _ _ hk
+    intro k S path sfs s done hm hs hcap _ _ hk
     rw [pushFields]
-    exact hk s hm (by simpa [fieldKeys, knownKeys] using hs)
+    exact hk s hm (by simpa [fieldKeys, knownKeys] using hs) (by simp only [vsizef] at hcap; omega)
   | .cons key al x rest, hraw => by
     intro k S path sfs s done hm hs hcap hdup hin hk
     have hraw' : noRaw x = true ∧ noRawf rest = true := by simpa [noRawf] using hraw
@@ -482,15 +482,15 @@ theorem pushFields_bl : ∀ (fields : SFields), noRawf fields = true → FieldsB
         obtain ⟨hgc', hroom⟩ := push_step hgc hraw'.1 (by omega) hpc
         have hroomL : roomL s.fields ≤ roomL (s.fields.set idx c') + vsize ext x := roomL_set _ _ _ _ _ _ hget hroom
         refine pushFields_bl rest hraw'.2 k S path sfs _ (done ++ [key]) (hm1.step hget hfj hgc' (hac.push hpc))
-          (SeenIs.step hm1 hs1 hname) (show vsizef ext rest ≤ roomL (s.fields.set idx c') by omega) ?_ ?_ ?_
+          (SeenIs.step hm1 hs1 hname) (show vsizef ext rest + 1 ≤ roomL (s.fields.set idx c') by omega) ?_ ?_ ?_
         · intro hd; apply hdup; simpa [List.append_assoc] using hd
         · intro q hq; apply hin; simp only [blameFields, List.mem_append]; exact .inr hq
-        · intro s' hm' hs'; apply hk s' hm'; simpa [List.append_assoc] using hs'
+        · intro s' hm' hs' hr'; exact hk s' hm' (by simpa [List.append_assoc] using hs') hr'
 theorem pushStructEntries_bl : ∀ (es : SEntries), noRawe es = true → EntriesBl ext es
   | .nil, _ => by
-    intro k S path sfs s done hm hs _ _ _ _ hk
+    intro k S path sfs s done hm hs hcap _ _ _ hk
     rw [pushStructEntries]
-    exact hk s hm (by simpa [entryKeys, knownKeys] using hs)
+    exact hk s hm (by simpa [entryKeys, knownKeys] using hs) (by simp only [vsizee] at hcap; omega)
   | .cons kx x rest, hraw => by
     intro k S path sfs s done hm hs hcap hdup hkeys hin hk
     have hraw' : (noRaw kx = true ∧ noRaw x = true) ∧ noRawe rest = true := by simpa [noRawe] using hraw
@@ -547,10 +547,10 @@ theorem pushStructEntries_bl : ∀ (es : SEntries), noRawe es = true → Entries
         refine pushStructEntries_bl rest hraw'.2 k S path sfs _ (done ++ [key])
           ((hm.step (nx := idx + 1) hget hfj hgc' (hac.push hpc)).next _)
           ((SeenIs.step (nx := idx + 1) hm hs hname).next _)
-          (show vsizee ext rest ≤ roomL (s.fields.set idx c') by omega) ?_ hkeys' ?_ ?_
+          (show vsizee ext rest + 1 ≤ roomL (s.fields.set idx c') by omega) ?_ hkeys' ?_ ?_
         · intro hd; apply hdup; simpa [List.append_assoc] using hd
         · intro q hq; apply hin; simp only [blameEntriesStruct, List.mem_append]; exact .inr hq
-        · intro s' hm' hs'; apply hk s' hm'; simpa [List.append_assoc] using hs'
+        · intro s' hm' hs' hr'; exact hk s' hm' (by simpa [List.append_assoc] using hs') hr'
 theorem pushMapEntries_bl : ∀ (es : SEntries), noRawe es = true → MapEntriesBl ext es
   | .nil, _ => by intro offs ks vs kp kdt kn kmd vp vdt vn vmd _ _ _ _ _ _; rw [pushMapEntries]; exact Bl.of_ok _
   | .cons kx x rest, hraw => by
